@@ -320,6 +320,16 @@ def read_siginfo(buf, vs, ve, ignore_critical, cert=False):
             b = _one(vf, I['NOT_AFTER'])
             out['not_before'] = bytes(buf[a[1]:a[2]]) if a else None
             out['not_after'] = bytes(buf[b[1]:b[2]]) if b else None
+        out['add_desc'] = None
+        e = _one(f, I['ADD_DESC'])
+        if e:
+            # AdditionalDescription = 1*DescriptionEntry(0x0200) { DescriptionKey(0x0201) DescriptionValue(0x0202) }
+            ents = []
+            for (t2, ts2, vs2, ve2) in children(buf, e[1], e[2]):
+                if t2 == 0x0200:
+                    kv = {k[0]: bytes(buf[k[2]:k[3]]) for k in children(buf, vs2, ve2)}
+                    ents.append((kv.get(0x0201), kv.get(0x0202)))
+            out['add_desc'] = ents
     return out
 
 
